@@ -267,6 +267,23 @@ func c13R3(c *Ctx) {
 	for _, g := range gos {
 		c.check(domI(store, g) && store != g, "wrapOutput/status-before-go", c.ipos(g), "status is handshaking before the worker starts", "handshake worker started before the status is handshaking")
 	}
+	// the worker reads the trigger (mode, unique id, ports, Windows flag) from the relay: it is recorded before the worker starts
+	for _, g := range gos {
+		rec := false
+		eachInstr(f, func(in ssa.Instruction) {
+			st, ok := in.(*ssa.Store)
+			if !ok {
+				return
+			}
+			if n, _ := fieldAddrName(st.Addr); n == "TrzszRelay.trigger" {
+				if call, idx := callOf(st.Val); call != nil && idx == 1 && calleeID(&call.Call) == "(*trzsz.trzszDetector).detectTrzsz" && domI(st, g) {
+					_, nonNil := factNil(factsAt(st.Block()), st.Val)
+					rec = nonNil
+				}
+			}
+		})
+		c.check(rec, "wrapOutput/trigger-recorded-before-go", c.ipos(g), "the detected trigger is recorded (on its non-nil edge) before the handshake worker starts", "the handshake worker starts without the detected trigger having been recorded: it works from a stale or nil trigger")
+	}
 	// on the trigger edge no forward of the chunk precedes the store
 	tb := store.Block()
 	hit, path := reachFrom(tb, 0, func(in ssa.Instruction) bool {
@@ -445,6 +462,46 @@ func c13R5(c *Ctx) {
 		}
 		if nPark == 0 {
 			c.bad(ps.fn+"/park", c.pos(f.Pos()), "the pump never parks chunks during a handshake")
+		}
+		// the pump ends only when its source reported EOF
+		rerr := extractOf(read, 1)
+		eofEdge := func(from, to *ssa.BasicBlock) bool {
+			return factCmp(edgeFactsTo(from, to), token.EQL, isValue(rerr), func(v ssa.Value) bool {
+				u, ok := strip(v).(*ssa.UnOp)
+				if !ok || u.Op != token.MUL {
+					return false
+				}
+				g, isG := u.X.(*ssa.Global)
+				return isG && g.Name() == "EOF"
+			})
+		}
+		hit5, path5 := reachFromE(read.Block(), instrIndex(read)+1, isReturn, nil, eofEdge)
+		c.check(hit5 == nil, ps.fn+"/ends-only-on-EOF", c.ipos(read), "the pump ends only on the edge where its source reported EOF", "the pump can end although its source is still open: the relay stops forwarding this direction", c.pathStr(path5)...)
+		// a pump that saw the status "handshaking" must offer the chunk to the parking function before it may forward it
+		hs := c.constVal("kRelayHandshaking")
+		nHS := 0
+		for _, b := range f.Blocks {
+			i := blockIf(b)
+			if i == nil {
+				continue
+			}
+			op, x, y, ok := cmpFact(normFact(fact{V: i.Cond, Pol: true}))
+			if !ok || (op != token.EQL && op != token.NEQ) || !isConstIntV(hs)(y) {
+				continue
+			}
+			if call, _ := callOf(x); call == nil || !isStatusCall(call, "Load") {
+				continue
+			}
+			nHS++
+			k := 0
+			if op == token.NEQ {
+				k = 1
+			}
+			hit4, path4 := reachFrom(b.Succs[k], 0, isSendChunk, func(x ssa.Instruction) bool { return isPark(x) || x == ssa.Instruction(read) })
+			c.check(hit4 == nil, ps.fn+"/handshaking=>park-first", c.ipos(i), "on the edge where the status was read as handshaking the chunk is offered to the parking function before any forward", "a chunk read while the status is handshaking can be forwarded without parking: it overtakes the bytes parked before it", c.pathStr(path4)...)
+		}
+		if nHS == 0 {
+			c.bad(ps.fn+"/handshaking=>park-first", c.pos(f.Pos()), "the pump no longer tests the status for handshaking")
 		}
 	}
 	// consumers: which writer each channel drains into
